@@ -1,5 +1,6 @@
 import ZstdVerif.Model.Estimate
 import ZstdVerif.Model.DBuf
+import ZstdVerif.Model.Rep
 import Driver.Util
 /-! line-protocol driver for the memory-budget models (C14): workspace reservations / estimates, decoder buffer sizing -/
 namespace Driver.Mem
@@ -39,6 +40,13 @@ def step (_ : Unit) (ws : List String) : Unit × String :=
     match nats cp with
     | [w, c, h, sl, mm, tl, st] => ((), toString (estimateUsingCParams ⟨w, c, h, sl, mm, tl, st⟩ (kind == "cstream")))
     | _ => ((), "bad-op")
+  | ["rep", a, b, c, raw, l] =>
+    let r : Rep.R := ⟨a.toNat!, b.toNat!, c.toNat!⟩
+    let ll0 := l != "0"
+    let ob := Rep.finalizeOffBase raw.toNat! r ll0
+    let r' := Rep.updateRep r ob ll0
+    ((), s!"{ob} {r'.r0} {r'.r1} {r'.r2}")
+  | ["codes", ll, ml] => ((), s!"{Rep.llCode ll.toNat!} {Rep.mlCode ml.toNat!}")
   | ["dbuf", hw, fcs, bsm, wmax, out, whole] =>
     match hw.toNat?, fcs.toInt?, bsm.toNat?, wmax.toNat?, out.toNat? with
     | some hw, some fcs, some bsm, some wmax, some out =>
